@@ -19,6 +19,7 @@ VERIF = os.path.dirname(os.path.dirname(os.path.abspath(__file__)))
 REPLAY_DIR = os.path.join(VERIF, "replays")
 EVIDENCE_DIR = os.path.join(VERIF, "evidence")
 KNOWN_FILE = os.path.join(VERIF, "known_findings.json")
+RUN_TAG = ""
 
 _JOBS = []
 
@@ -211,11 +212,11 @@ def load_harness(ref):
 
 
 def write_replay(prop, h, viol):
-    os.makedirs(os.path.join(REPLAY_DIR, prop), exist_ok=True)
+    os.makedirs(os.path.join(REPLAY_DIR, prop, RUN_TAG), exist_ok=True)
     doc = {"property": prop, "harness": harness_ref(h), "obligation": viol["name"], "detail": viol["detail"],
            "model": viol["model"]}
     blob = json.dumps(doc, sort_keys=True)
-    path = os.path.join(REPLAY_DIR, prop, hashlib.sha1(blob.encode()).hexdigest()[:12] + ".json")
+    path = os.path.join(REPLAY_DIR, prop, RUN_TAG, hashlib.sha1(blob.encode()).hexdigest()[:12] + ".json")
     with open(path, "w") as f:
         json.dump(doc, f, indent=1, sort_keys=True)
     return path
